@@ -364,7 +364,7 @@ class Engine:
             fr = st.frames[-1]
             ins = str(fr.block.instrs[fr.ip])[:200] if fr.ip < len(fr.block.instrs) else ""
         self.violations.append(dict(label=label, kind=kind, inputs=self.inputs_of(st, model), where=where, ins=ins,
-                                    stack=[f.fn.name for f in st.frames][-8:]))
+                                    stack=[f.fn.name for f in st.frames][-8:], schedule=list(st.sched_trace)[-60:], events=st.events[-12:] if self.replay is None else []))
         if os.environ.get("VP_PATH_DEBUG"):
             sys.stderr.write("VIOLATION %s in %s at %s\n" % (label, [f.fn.name for f in st.frames][-5:], ins))
 
@@ -1246,7 +1246,11 @@ NOFINISH = object()
 
 def _step(self, st):
     if st.threads is not None:
-        self.cur_tid = st.threads[st.cur]["tid"]
+        me = st.threads[st.cur]
+        self.cur_tid = me["tid"]
+        if me.get("post_sync"):
+            me["post_sync"] = False
+            self.sync_point(st)
     fr = st.frames[-1]
     ins = fr.block.instrs[fr.ip]
     op = ins.op
@@ -1973,8 +1977,8 @@ def m_assert(eng, st, ins, name, args):
     label = "VP:" + eng.cstring(st, args[1])
     eng.obligations += 1
     if isinstance(c, int):
-        if eng.replay is not None:
-            st.events.append("A %s %d" % (label[3:], c & 1))
+        if eng.replay is not None or st.threads is not None:
+            st.events.append("A %s %d" % (label[3:40], c & 1))
         if not (c & 1):
             if eng.replay is not None:
                 st.events.append("VP_ASSERT_FAIL %s" % label[3:])
@@ -2490,7 +2494,6 @@ def m_vp_spawn(eng, st, ins, name, args):
     if fname is None or eng.m.funcs[fname].is_decl:
         raise Inconclusive("vp_spawn with unknown function")
     eng.spawn(st, eng.m.funcs[fname], [args[1]], "vp_spawn " + fname)
-    eng.sync_point(st)
     return None
 
 
@@ -2503,7 +2506,6 @@ def m_pthread_create(eng, st, ins, name, args):
     tid = eng.spawn(st, eng.m.funcs[fname], [args[3]], "pthread " + fname)
     eng.store(st, args[0], tid, llir.I64)
     st.extra["threads_created"] = st.extra.get("threads_created", 0) + 1
-    eng.sync_point(st)
     return 0
 
 
@@ -2574,7 +2576,6 @@ def m_thread_start(eng, st, ins, name, args):
     eng.store(st, up, 0, llir.I64)
     eng.store(st, th, tid, llir.I64)
     st.extra["threads_created"] = st.extra.get("threads_created", 0) + 1
-    eng.sync_point(st)
     return None
 
 
@@ -2696,11 +2697,15 @@ def m_mutex_trylock(eng, st, ins, name, args):
 @model("pthread_mutex_unlock")
 def m_mutex_unlock(eng, st, ins, name, args):
     a = _conc(eng, st, args[0], "mutex")
+    eng.sync_point(st)
     mx = _mutexes(st)
     if mx.get(a) != eng.cur_tid:
         eng.fail_path(st, "UB:mutex unlocked by a thread that does not hold it", "UB")
     del mx[a]
     eng.wake(st, lambda w: w == ("mutex", a))
+    me = _me(st)
+    if me is not None:
+        me["post_sync"] = True     # the instruction after the release is a scheduling point too (code that leaves the critical section early)
     return 0
 
 
@@ -2717,6 +2722,8 @@ def _cv_wait(eng, st, cv, mtx):
     if me["phase"] == 0:
         if mx.get(mtx) != eng.cur_tid:
             eng.fail_path(st, "UB:condition_variable::wait without holding the mutex", "UB")
+        eng.sync_point(st)      # a thread that does not take the mutex can run between the predicate check and the wait
+        mx = _mutexes(st)
         del mx[mtx]
         eng.wake(st, lambda w: w == ("mutex", mtx))
         me["phase"] = 1
